@@ -401,7 +401,7 @@ theorem parse_items_then (env : Env) :
         simp only []
         exact ih _ hr _ { st with titleParagraph := [] } hc rest
     | front body =>
-      obtain ⟨hcs, hb, hok⟩ : cs = false ∧ (∀ x ∈ body, x ≠ frontMatterFence) ∧ env.docCfgOk (joinNl body) = true := hit
+      obtain ⟨hcs, hb, hok⟩ : cs = false ∧ (∀ x ∈ body, x ≠ frontMatterFence) ∧ env.docCfgOk (joinNl body ++ ['\n']) = true := hit
       subst hcs
       rw [runP_front _ body hb]
       have hl : (Item.front body).lines.length = body.length + 2 := by simp [Item.lines]
@@ -552,6 +552,100 @@ theorem insert_inert (env : Env) (pre post : List Item) (x : Item) (hx : x.inert
   · rw [← docTexts_insert pre post x hx]
     exact parseLines_render env _ hwf'
   · rw [expectedTests_core, expectedTests_core, writtenCores_insert pre post x hx]
+
+/-! ## one prose line is as good as another
+
+The parser looks at a prose line in two ways only: is it a title line (`extractTitle`), is it blank
+(`content_start`).  Two prose lines that agree in both are interchangeable: the whole result
+(document configuration, every test with its title and line number) is the same. -/
+
+theorem expectedTests_replace_prose (env : Env) (pre post : List Item) (p q : Line)
+    (ht : extractTitle env.isLetter p = extractTitle env.isLetter q) :
+    ∀ (li : Nat) (t : Option Line) (tp : List Line),
+      expectedTests env (pre ++ .prose p :: post) li t tp = expectedTests env (pre ++ .prose q :: post) li t tp := by
+  induction pre with
+  | nil => intro li t tp; simp only [List.nil_append, expectedTests, ht]
+  | cons it r ih =>
+    intro li t tp
+    cases it with
+    | prose l =>
+      simp only [List.cons_append, expectedTests]
+      split <;> exact ih _ _ _
+    | front body => simp only [List.cons_append, expectedTests]; exact ih _ _ _
+    | foreign v => simp only [List.cons_append, expectedTests]; exact ih _ _ _
+    | noCommand v => simp only [List.cons_append, expectedTests]; exact ih _ _ _
+    | block b => simp only [List.cons_append, expectedTests, ih]
+
+theorem itemsWF_replace_prose (env : Env) (pre post : List Item) (p q : Line) (cs : Bool)
+    (hb : (trim p).isEmpty = (trim q).isEmpty)
+    (hq : Item.WF env (csAfterAll cs pre) (.prose q))
+    (hwf : ItemsWF env cs (pre ++ .prose p :: post)) : ItemsWF env cs (pre ++ .prose q :: post) := by
+  rw [itemsWF_append] at hwf ⊢
+  refine ⟨hwf.1, hq, ?_⟩
+  have := hwf.2.2
+  simpa only [Item.csAfter, hb] using this
+
+theorem replace_prose (env : Env) (pre post : List Item) (p q : Line)
+    (ht : extractTitle env.isLetter p = extractTitle env.isLetter q)
+    (hb : (trim p).isEmpty = (trim q).isEmpty)
+    (hq : Item.WF env (csAfterAll false pre) (.prose q))
+    (hwf : ItemsWF env false (pre ++ .prose p :: post)) :
+    parseLines env (render (pre ++ .prose q :: post)) = parseLines env (render (pre ++ .prose p :: post)) := by
+  rw [parseLines_render env _ hwf,
+    parseLines_render env _ (itemsWF_replace_prose env pre post p q false hb hq hwf),
+    docTexts_insert pre post (.prose q) rfl, docTexts_insert pre post (.prose p) rfl,
+    expectedTests_replace_prose env pre post p q ht]
+
+/-! ## a line that starts with an inline code span -/
+
+theorem ticks_replicate (n : Nat) (c : Char) (rest : Line) (hc : c ≠ '`') :
+    fenceTicks (List.replicate n '`' ++ c :: rest) = List.replicate n '`' ∧
+    fenceInfo (List.replicate n '`' ++ c :: rest) = c :: rest := by
+  induction n with
+  | zero => simpa using fence_cons_other c rest hc
+  | succ n ih =>
+    have e : List.replicate (n + 1) '`' ++ c :: rest = '`' :: (List.replicate n '`' ++ c :: rest) := by
+      simp [List.replicate_succ]
+    rw [e, (fence_cons_tick _).1, (fence_cons_tick _).2, ih.1, ih.2]
+    simp [List.replicate_succ]
+
+/-- three or more backticks, then text (not starting with a backtick) that contains a backtick in
+front of its first `{`: not a fence line -/
+theorem inline_span_not_fence (n : Nat) (c : Char) (rest : Line) (hc : c ≠ '`')
+    (hbt : '`' ∈ (c :: rest).takeWhile (· ≠ '{')) :
+    extractCodeBlockStart (List.replicate n '`' ++ c :: rest) = .ok none := by
+  rw [fence_iff_spec]
+  unfold isFenceLine fenceLang
+  rw [(ticks_replicate n c rest hc).2]
+  have : ((c :: rest).takeWhile (· ≠ '{')).contains '`' = true := by simpa using hbt
+  rw [this]
+  simp
+
+theorem trimEnd_cons_nonwhite (c : Char) (t : Line) (hc : isWhite c = false) :
+    ∃ t', trimEnd (c :: t) = c :: t' := by
+  unfold trimEnd
+  rw [List.reverse_cons, List.dropWhile_append]
+  split
+  · refine ⟨[], ?_⟩
+    simp [List.dropWhile, hc]
+  · refine ⟨(List.dropWhile isWhite t.reverse).reverse, ?_⟩
+    simp
+
+/-- … it is not a title line (a backtick is not a letter) and not blank -/
+theorem inline_span_no_title (env : Env) (hl : env.isLetter '`' = false) (n : Nat) (hn : 1 ≤ n) (x : Line) :
+    extractTitle env.isLetter (List.replicate n '`' ++ x) = none ∧
+    (trim (List.replicate n '`' ++ x)).isEmpty = false := by
+  obtain ⟨m, rfl⟩ : ∃ m, n = m + 1 := ⟨n - 1, by omega⟩
+  have e : List.replicate (m + 1) '`' ++ x = '`' :: (List.replicate m '`' ++ x) := by simp [List.replicate_succ]
+  have hw : isWhite '`' = false := by decide
+  have h1 : trimStart ('`' :: (List.replicate m '`' ++ x)) = '`' :: (List.replicate m '`' ++ x) := by
+    simp [trimStart, List.dropWhile, hw]
+  obtain ⟨t', h2⟩ := trimEnd_cons_nonwhite '`' (List.replicate m '`' ++ x) hw
+  have h3 : trim (List.replicate (m + 1) '`' ++ x) = '`' :: t' := by rw [e]; unfold trim; rw [h1, h2]
+  refine ⟨?_, by rw [h3]; rfl⟩
+  unfold extractTitle
+  simp only [h3, hl, Bool.false_eq_true, if_false]
+  rfl
 
 /-- line numbers of the tests: each the line of a `$` -/
 theorem render_skip (its : List Line) (rest : List Line) (n : Nat) :
